@@ -406,6 +406,43 @@ def render_mirror(idx, explicit):
 """
 
 
+def render_escaped_clone(idx, recv, n_clones):
+    """Delegation leaves no trace in the bookkeeping of live clones: after a delegated call the
+    original still refuses to verify while exactly n user-made clones are alive, and verifies once
+    they are gone."""
+    if recv == "ref":
+        call, mutq = "u.p(3)", ""
+    elif recv == "mut":
+        call, mutq = "u.p(3)", "mut "
+    else:
+        call, mutq = "core::pin::Pin::new(&mut u).p(3)", "mut "
+    decl = recv_decl(recv)
+    return f"""    #[unimock(api=Mk)]
+    pub trait Tr {{
+        fn r0(&self, x: u8) -> u32;
+        fn p({decl}, x: u8) -> u32 {{
+            self.r0(x) + 1
+        }}
+    }}
+    pub fn run() -> Result<(), String> {{
+        #[allow(unused_mut)]
+        let {mutq}u = Unimock::new(Mk::r0.each_call(matching!(_)).answers(&|_, x| x as u32));
+        let clones: Vec<Unimock> = (0..{n_clones}).map(|_| u.clone()).collect();
+        let got = vh::obs::catch(|| {call});
+        if got != Ok(4) {{
+            return Err(format!("delegated call gave {{got:?}}"));
+        }}
+        let verdict = vh::obs::catch(move || drop(u));
+        drop(clones);
+        match verdict {{
+            Err(msg) if {n_clones} > 0 && msg.contains("clones still alive") => Ok(()),
+            Ok(()) if {n_clones} == 0 => Ok(()),
+            other => Err(format!("after a delegated call with {n_clones} user-made clone(s) alive, dropping the original gave {{other:?}} (a direct-call history refuses exactly when a clone is alive)")),
+        }}
+    }}
+"""
+
+
 def render_nested(idx, variant):
     """Delegation inside delegation, and a derived mock lent from inside a delegated body: the
     default bodies run against the same mock, and the final verification judges the counts."""
@@ -587,6 +624,9 @@ def run(pid, tier, replay, start):
     for recv in ("ref", "mut", "own", "pin"):
         for form in ("short", "qualified"):
             insts.append(Instance(len(insts), f"assoc-type-in-required-signature/{recv}/{form}", render_assoc_sig(len(insts), recv, form), {"body": 1, "recv": recv}))
+    for recv in ("ref", "mut", "pin"):
+        for n_clones in (0, 1, 2):
+            insts.append(Instance(len(insts), f"live-clones-after-delegation/{recv}/{n_clones}", render_escaped_clone(len(insts), recv, n_clones), {"body": 1, "recv": recv}))
     for explicit in (False, True):
         insts.append(Instance(len(insts), f"mirrored-trait/{'applies_default_impl' if explicit else 'no-clause'}", render_mirror(len(insts), explicit), {"body": 1, "recv": "mut"}))
     for recv in RECVS:
